@@ -54,7 +54,7 @@ def main(cases_fn, replay_fn=None, describe=None):
         def on_alarm_r(signum, frame):
             raise ReplayTimeout()
         signal.signal(signal.SIGALRM, on_alarm_r)
-        signal.setitimer(signal.ITIMER_REAL, float(os.environ.get('VERIF_CASE_TIMEOUT', '20')) * 2)
+        signal.setitimer(signal.ITIMER_REAL, float(os.environ.get('VERIF_CASE_TIMEOUT', '60')) * 2)
         try:
             out = replay_fn(L, payload)
         except ReplayTimeout:
@@ -117,7 +117,7 @@ def main(cases_fn, replay_fn=None, describe=None):
     def on_alarm(signum, frame):
         raise CaseTimeout()
     signal.signal(signal.SIGALRM, on_alarm)
-    per_case = float(os.environ.get('VERIF_CASE_TIMEOUT', '20'))
+    per_case = float(os.environ.get('VERIF_CASE_TIMEOUT', '60'))
     import contextlib
 
     @contextlib.contextmanager
